@@ -1,8 +1,8 @@
-\* behaviour generation, quick: three index-coded inputs of 6 samples x every partition into calls of 1..4 frames x
-\* d = 0..3 x feedback 0/1 x nested gain 0/1 x mix 0/1: one BEHAVIOUR line per complete behaviour (about 2 200).
+\* behaviour generation, quick: three index-coded inputs of 7 samples x every partition into calls of 1..4 frames x
+\* d = 0..3 x feedback 0/1 x nested gain 0/1 x mix 0/1: one BEHAVIOUR line per complete behaviour (about 4 400; thorough: 8 samples, calls of 1..8 frames, d = 0..4: about 12 500).
 SPECIFICATION GSpec
 CONSTANTS
-  N = 6
+  N = 7
   Vals = {0, 1}
   Ds = {0, 1, 2, 3}
   NGs = {0, 1}
